@@ -956,6 +956,8 @@ func frameIsClassOnly(fc *FuncContract) bool {
 func (e *Engine) orderFreeViolation(fn *ssa.Function) string {
 	li := e.loopsOf(fn)
 	sorted := map[*ssa.Alloc]bool{}
+	sortedFields := map[string]bool{}    // "StructType.fieldIndex" passed to sort.* somewhere in fn
+	sortedMapValues := map[string]bool{} // map types all of whose values fn sorts (range over the map, sort the value)
 	for _, b := range fn.Blocks {
 		for _, in := range b.Instrs {
 			c, ok := in.(*ssa.Call)
@@ -982,8 +984,30 @@ func (e *Engine) orderFreeViolation(fn *ssa.Function) string {
 				break
 			}
 			if ld, ok := v.(*ssa.UnOp); ok {
-				if a, ok := ld.X.(*ssa.Alloc); ok {
+				switch a := ld.X.(type) {
+				case *ssa.Alloc:
 					sorted[a] = true
+					// the sorted value may be the element variable of a range over a map: then every
+					// value stored in a map of that type is sorted by this function
+					if a.Referrers() != nil {
+						for _, r := range *a.Referrers() {
+							st, ok := r.(*ssa.Store)
+							if !ok || st.Addr != a {
+								continue
+							}
+							if ex, ok := st.Val.(*ssa.Extract); ok {
+								if nx, ok := ex.Tuple.(*ssa.Next); ok {
+									if rg, ok := nx.Iter.(*ssa.Range); ok {
+										if _, isMap := rg.X.Type().Underlying().(*types.Map); isMap {
+											sortedMapValues[typeKey(rg.X.Type())] = true
+										}
+									}
+								}
+							}
+						}
+					}
+				case *ssa.FieldAddr:
+					sortedFields[fieldAddrKey(a)] = true
 				}
 			}
 		}
@@ -1013,7 +1037,22 @@ func (e *Engine) orderFreeViolation(fn *ssa.Function) string {
 				}
 				a, ok := st.Addr.(*ssa.Alloc)
 				if !ok {
+					if fa, isField := st.Addr.(*ssa.FieldAddr); isField && sortedFields[fieldAddrKey(fa)] {
+						continue // the same field is passed to sort.* by this function
+					}
 					return fmt.Sprintf("loop %d ranges over a map and appends to a non-local slice at %s", lp.ordinal, posStr(e.prog.Fset, st.Pos()))
+				}
+				if !sorted[a] && a.Referrers() != nil {
+					// stored into a map all of whose values this function sorts?
+					for _, r := range *a.Referrers() {
+						if ld, ok := r.(*ssa.UnOp); ok && ld.Referrers() != nil {
+							for _, r2 := range *ld.Referrers() {
+								if mu, ok := r2.(*ssa.MapUpdate); ok && mu.Value == ld && sortedMapValues[typeKey(mu.Map.Type())] {
+									sorted[a] = true
+								}
+							}
+						}
+					}
 				}
 				if !sorted[a] {
 					return fmt.Sprintf("loop %d ranges over a map and appends to %s (%s), which is never sorted", lp.ordinal, a.Comment, posStr(e.prog.Fset, st.Pos()))
@@ -1071,4 +1110,12 @@ func (e *Engine) fieldsRead(fn *ssa.Function) map[string]bool {
 	}
 	walk(fn)
 	return out
+}
+
+func fieldAddrKey(fa *ssa.FieldAddr) string {
+	t := fa.X.Type()
+	if p, ok := t.Underlying().(*types.Pointer); ok {
+		t = p.Elem()
+	}
+	return typeKey(t) + "." + strconv.Itoa(fa.Field)
 }
